@@ -129,8 +129,11 @@ class TypeMap:
         return isinstance(t, UninhabitedType)
 
     def class_mro(self, fullname: str) -> list[str]:
-        info = self._typeinfo(fullname)
-        return [b.fullname for b in info.mro] if info is not None else []
+        cache = self.__dict__.setdefault("_mro_cache", {})
+        if fullname not in cache:
+            info = self._typeinfo(fullname)
+            cache[fullname] = [b.fullname for b in info.mro] if info is not None else []
+        return cache[fullname]
 
     def _typeinfo(self, fullname: str) -> Any:
         modname, _, cls = fullname.rpartition(".")
@@ -143,6 +146,12 @@ class TypeMap:
         return sym.node if sym is not None and isinstance(sym.node, TypeInfo) else None
 
     def subclasses_of(self, fullname: str) -> list[str]:
+        cache = self.__dict__.setdefault("_sub_cache", {})
+        if fullname not in cache:
+            cache[fullname] = self._subclasses_of(fullname)
+        return cache[fullname]
+
+    def _subclasses_of(self, fullname: str) -> list[str]:
         from mypy.nodes import TypeInfo
 
         out = []
